@@ -38,6 +38,25 @@ impl std::io::Read for FaultyHandle<dyn SeekAndRead + Send> {
         }
         self.inner.read(buf)
     }
+    // the provided methods are forwarded too, so that an implementation's own overrides stay in the picture
+    fn read_to_end(&mut self, buf: &mut Vec<u8>) -> std::io::Result<usize> {
+        if self.armed(1) {
+            return Err(injected_io());
+        }
+        self.inner.read_to_end(buf)
+    }
+    fn read_to_string(&mut self, buf: &mut String) -> std::io::Result<usize> {
+        if self.armed(1) {
+            return Err(injected_io());
+        }
+        self.inner.read_to_string(buf)
+    }
+    fn read_exact(&mut self, buf: &mut [u8]) -> std::io::Result<()> {
+        if self.armed(1) {
+            return Err(injected_io());
+        }
+        self.inner.read_exact(buf)
+    }
 }
 impl std::io::Seek for FaultyHandle<dyn SeekAndRead + Send> {
     fn seek(&mut self, pos: std::io::SeekFrom) -> std::io::Result<u64> {
@@ -56,6 +75,12 @@ impl std::io::Write for FaultyHandle<dyn SeekAndWrite + Send> {
             return Err(injected_io());
         }
         self.inner.flush()
+    }
+    fn write_all(&mut self, buf: &[u8]) -> std::io::Result<()> {
+        if self.armed(2) {
+            return Err(injected_io());
+        }
+        self.inner.write_all(buf)
     }
 }
 impl std::io::Seek for FaultyHandle<dyn SeekAndWrite + Send> {
